@@ -47,6 +47,7 @@ def Dom.dropAll (dom : Dom) (ids : List Nat) : Dom := dom.filter (fun p => !ids.
 
 /-- what is known about the variables after member `m` -/
 def Dom.after (dom : Dom) : Member → Dom
+  | .field id .selfSize _ => dom.drop id
   | .field id _ (.leaf (.enumT _ _ vals)) => (id, vals) :: dom
   | .field id _ _ => dom.drop id
   | m => dom.dropAll (boundM m)
@@ -72,6 +73,32 @@ def expandMs (dom : Dom) : Members → Members
   | .nil => .nil
   | .cons m ms => .cons (expandM dom m) (expandMs (dom.after m) ms)
 end
+
+/-! readers do not validate constants or `self.size` fields: the reader program is compared with the role-erased normal form -/
+mutual
+def eraseTy : Ty → Ty
+  | .leaf l => .leaf l
+  | .struct ms => .struct (eraseMs ms)
+  | .arrFixed n t => .arrFixed n (eraseTy t)
+  | .arrVar v t => .arrVar v (eraseTy t)
+def eraseM : Member → Member
+  | .field id _ t => .field id .plain (eraseTy t)
+  | .ifs var bs => .ifs var (eraseB bs)
+  | .endless id t => .endless id (eraseTy t)
+  | .optional ms => .optional (eraseMs ms)
+def eraseB : Branches → Branches
+  | .els ms => .els (eraseMs ms)
+  | .cons c ms bs => .cons c (eraseMs ms) (eraseB bs)
+def eraseMs : Members → Members
+  | .nil => .nil
+  | .cons m ms => .cons (eraseM m) (eraseMs ms)
+end
+
+/-- the comparison the driver evaluates for a translated WRITER (roles kept) -/
+def writerMatches (spec rust : Members) : Bool := decide (expandMs [] spec = rust)
+
+/-- … and for a translated READER of the same definition (roles erased) -/
+def readerMatchesE (spec rust : Members) : Bool := decide (eraseMs (expandMs [] spec) = rust)
 
 /-- the comparison the driver evaluates: the reader program (from Rust) is the per-enumerator normal form of the specification program -/
 def readerMatches (spec rust : Members) : Bool := decide (expandMs [] spec = rust)
